@@ -426,10 +426,15 @@ Definition isq_value (orc : oracle) (r : isqrt) : Qc := match r with InvSqrt x =
 Definition draw_normal (m : Qc) (s : isqrt) : gprog Qc := GDraw (DNormal m (isq_sq s)) (fun v => GRet (val_q v)).
 Definition draw_normal_vec (s : list isqrt) : gprog (list Qc) := GDraw (DNormalVec (map isq_sq s)) (fun v => GRet (val_v v)).
 Definition draw_gamma (a scale : Qc) : gprog Qc := GDraw (DGamma a (/ scale)) (fun v => GRet (val_q v)).
+(* ... with an array of scales: the drawn array has the shape of the scale argument (numpy's contract; a recorded answer
+   of another shape is read at that shape, as the model reads it) *)
+Definition fit_like {A B} (z : B) (like : list A) (l : list B) : list B := map (fun i => nth i l z) (seq 0 (length like)).
+Definition fit_like2 (like m : list (list Qc)) : list (list Qc) :=
+  map (fun p => fit_like 0 (fst p) (snd p)) (combine like (fit_like [] like m)).
 Definition draw_gamma_vec (a : Qc) (scales : list Qc) : gprog (list Qc) :=
-  GDraw (DGammaVec a (map Qcinv scales)) (fun v => GRet (val_v v)).
+  GDraw (DGammaVec a (map Qcinv scales)) (fun v => GRet (fit_like 0 scales (val_v v))).
 Definition draw_gamma_mat (a : Qc) (scales : list (list Qc)) : gprog (list (list Qc)) :=
-  GDraw (DGammaMat a (map (map Qcinv) scales)) (fun v => GRet (val_m v)).
+  GDraw (DGammaMat a (map (map Qcinv) scales)) (fun v => GRet (fit_like2 scales (val_m v))).
 
 (* a[i] with a Python int i (negative counts from the end); a[i] = v *)
 Definition np_get {A} (z : A) (a : list A) (i : Z) : A := nth (pyidx (length a) i) a z.
@@ -440,12 +445,12 @@ Definition np_take {A} (z : A) (a : list A) (ix : list Z) : list A := map (np_ge
 (* elementwise operators on arrays of equal shape, array op scalar *)
 Fixpoint zipw {A B C} (f : A -> B -> C) (a : list A) (b : list B) : list C :=
   match a, b with x :: a', y :: b' => f x y :: zipw f a' b' | _, _ => [] end.
-Definition np_vsub (a b : list Qc) : list Qc := zipw Qcminus a b.
-Definition np_vadd (a b : list Qc) : list Qc := zipw Qcplus a b.
-Definition np_vmul (a b : list Qc) : list Qc := zipw Qcmult a b.
+Definition np_vsub : list Qc -> list Qc -> list Qc := zipw Qcminus.
+Definition np_vadd : list Qc -> list Qc -> list Qc := zipw Qcplus.
+Definition np_vmul : list Qc -> list Qc -> list Qc := zipw Qcmult.
 Definition np_vadds (a : list Qc) (x : Qc) : list Qc := map (fun y => y + x) a.
 Definition np_vmuls (a : list Qc) (x : Qc) : list Qc := map (fun y => y * x) a.
-Definition np_square (a : list Qc) : list Qc := map qsq a.
+Definition np_square : list Qc -> list Qc := map qsq.
 (* a[idx] += x (a scalar, broadcast) / a[idx] += delta (an array): gather, add, assign in order *)
 Definition np_iadd_at_scalar (a : list Qc) (idx : list nat) (x : Qc) : list Qc := scatter_add a idx (map (fun _ => x) idx).
 Definition np_iadd_at (a : list Qc) (idx : list nat) (delta : list Qc) : list Qc := scatter_add a idx delta.
@@ -455,6 +460,27 @@ Definition np_where (m : list bool) : list nat := filter (fun i => nth i m false
 Definition np_zero_at {A} (z : A) (a : list A) (pos : list nat) : list A := fold_left (fun a i => set_nth i z a) pos a.
 (* np.clip(x, C, hi) with C = 1.0 / np.sqrt(..) *)
 Definition np_clip_isq (orc : oracle) (x : Qc) (lo : isqrt) (hi : Qc) : Qc := qclip (isq_value orc lo) hi x.
+(* scalar op array, elementwise on arrays of standard deviations / clipping bounds, range *)
+Definition np_sadd (x : Qc) : list Qc -> list Qc := map (fun y => x + y).
+Definition np_smul (x : Qc) : list Qc -> list Qc := map (fun y => x * y).
+Definition np_sdiv (x : Qc) : list Qc -> list Qc := map (fun y => x / y).
+Definition np_vdivs (a : list Qc) (x : Qc) : list Qc := map (fun y => y / x) a.
+Definition np_clip_isq_each (orc : oracle) (a : list Qc) (lo : list isqrt) (hi : Qc) : list Qc :=
+  zipw (fun x l => np_clip_isq orc x l hi) a lo.
+Definition np_clip_isq_all (orc : oracle) (a : list Qc) (lo : isqrt) (hi : Qc) : list Qc :=
+  map (fun x => np_clip_isq orc x lo hi) a.
+(* np.clip(a, C[:, None], hi): row m of the matrix is clipped below by C[m] *)
+Definition np_clip_isq_rows (orc : oracle) (a : list (list Qc)) (lo : list isqrt) (hi : Qc) : list (list Qc) :=
+  zipw (fun row l => np_clip_isq_all orc row l hi) a lo.
+(* a.sum(0) of a matrix with D columns (the list of rows does not know D when there is no row) *)
+Definition np_colsum (D : nat) (a : list (list Qc)) : list Qc := tab D (fun k => qsum (map (fun r => vnth r k) a)).
+Definition zrange2 (a b : Z) : list Z := map (fun i => (a + Z.of_nat i)%Z) (seq 0 (Z.to_nat (b - a))).
+(* a[i:] (a slice from a Python index to the end), total sum of a matrix *)
+Definition np_from {A} (a : list A) (i : Z) : list A := skipn (pyidx (length a) i) a.
+Definition np_msum (a : list (list Qc)) : Qc := qsum (map qsum a).
 (* the sweep for an arbitrary behaviour [step] of the block methods ([run_blocks g d orc] is [run_blocks_with (step_prog g d orc)]) *)
 Definition run_blocks_with (step : blk -> st -> prog) (bs : list blk) (s : st) : prog :=
   fold_left (fun p b => bind p (step b)) bs (Ret s).
+(* hypothesis of the linking theorems: a parameter matrix has n rows of D entries (what __init__ allocates) *)
+Definition shape2 (M : list (list Qc)) (n D : nat) : Prop :=
+  length M = n /\ forall i, (i < n)%nat -> length (rnth M i) = D.
